@@ -38,6 +38,7 @@ type Verifier struct {
 	autoOff     map[string]bool
 	SweepSet    map[string]bool
 	TypeInvUsed map[string]bool
+	IgnoreKinds map[string]bool
 }
 
 func newVerifier(P *Program, C *Contracts) *Verifier {
@@ -72,6 +73,7 @@ type state struct {
 	epoch  int
 	next   string
 	dead   bool
+	locals map[*ssa.Alloc]string // current values of locally owned cells (see localCell)
 }
 
 func (s *state) clone() *state {
@@ -79,7 +81,11 @@ func (s *state) clone() *state {
 	for k, v := range s.heap {
 		h[k] = v
 	}
-	return &state{reach: s.reach, heap: h, epoch: s.epoch, next: s.next, dead: s.dead}
+	l := make(map[*ssa.Alloc]string, len(s.locals))
+	for k, v := range s.locals {
+		l[k] = v
+	}
+	return &state{reach: s.reach, heap: h, epoch: s.epoch, next: s.next, dead: s.dead, locals: l}
 }
 
 type loopInfo struct {
@@ -401,8 +407,27 @@ func (e *fnEnc) setHeap(st *state, key string, cell *Sort, term string) {
 
 func (e *fnEnc) havocAll(st *state) {
 	e.epochCtr++
+	// the ghost log of sent pointers is written only by the function itself
+	var sentlog string
+	if _, used := mapCellSorts["sentlog"]; used {
+		sentlog = e.heap(st, "sentlog", mapCellSorts["sentlog"])
+	}
+	var gflag string
+	if _, used := mapCellSorts["gflag"]; used {
+		// monotone ghost flags: a callee may set more of them, never reset one
+		old := e.heap(st, "gflag", sortBool)
+		gflag = e.declare("Hgflag", &Sort{name: "(Array Ref Bool)"})
+		e.hasQuant = true
+		e.emit(fmt.Sprintf("(assert (forall ((a Ref)) (! (=> (select %s a) (select %s a)) :pattern ((select %s a)))))", old, gflag, gflag))
+	}
 	st.epoch = e.epochCtr
 	st.heap = map[string]string{}
+	if sentlog != "" {
+		st.heap["sentlog"] = sentlog
+	}
+	if gflag != "" {
+		st.heap["gflag"] = gflag
+	}
 	nn := e.declare("next", &Sort{name: "Int"})
 	e.assume(st, fmt.Sprintf("(>= %s %s)", nn, st.next))
 	st.next = nn
@@ -587,7 +612,7 @@ func (V *Verifier) encodeFunction(fn *ssa.Function, fc *FuncContract) (enc *fnEn
 		return
 	}
 	e.findLoops()
-	st := &state{reach: "true", heap: map[string]string{}, epoch: 0}
+	st := &state{reach: "true", heap: map[string]string{}, epoch: 0, locals: map[*ssa.Alloc]string{}}
 	st.next = e.declare("next0", &Sort{name: "Int"})
 	e.emit(fmt.Sprintf("(assert (>= %s 0))", st.next))
 	e.entry = st.clone()
@@ -718,7 +743,7 @@ func (e *fnEnc) mergePreds(b *ssa.BasicBlock) *state {
 		}
 	}
 	if len(preds) == 0 {
-		return &state{reach: "false", heap: map[string]string{}, next: "0", dead: true}
+		return &state{reach: "false", heap: map[string]string{}, next: "0", dead: true, locals: map[*ssa.Alloc]string{}}
 	}
 	if len(preds) == 1 {
 		st := e.out[preds[0]].clone()
@@ -729,7 +754,7 @@ func (e *fnEnc) mergePreds(b *ssa.BasicBlock) *state {
 	for i, p := range preds {
 		conds[i] = e.defineGuard(fmt.Sprintf("edge_%d_%d", p.Index, b.Index), e.edge(p, b))
 	}
-	st := &state{heap: map[string]string{}}
+	st := &state{heap: map[string]string{}, locals: map[*ssa.Alloc]string{}}
 	st.reach = e.defineGuard("reach_b"+fmt.Sprint(b.Index), or(conds...))
 	// epoch: same if all equal, else new
 	same := true
@@ -780,6 +805,38 @@ func (e *fnEnc) mergePreds(b *ssa.BasicBlock) *state {
 		nterm = e.define("next", &Sort{name: "Int"}, nterm)
 	}
 	st.next = nterm
+	// locally owned cells
+	st.locals = map[*ssa.Alloc]string{}
+	lk := map[*ssa.Alloc]bool{}
+	for _, p := range preds {
+		for a := range e.out[p].locals {
+			lk[a] = true
+		}
+	}
+	for a := range lk {
+		var term string
+		first := true
+		allSame := true
+		for i := len(preds) - 1; i >= 0; i-- {
+			v, ok := e.out[preds[i]].locals[a]
+			if !ok {
+				continue // the cell does not exist on that path yet
+			}
+			if first {
+				term, first = v, false
+			} else {
+				if v != term {
+					allSame = false
+				}
+				term = ite(conds[i], v, term)
+			}
+		}
+		if !allSame {
+			et := a.Type().Underlying().(*types.Pointer).Elem()
+			term = e.define("loc_"+a.Comment, e.sortOf(et), term)
+		}
+		st.locals[a] = term
+	}
 	return st
 }
 
@@ -907,6 +964,15 @@ func (e *fnEnc) enterLoop(li *loopInfo, entry *state) *state {
 	if !writesAll {
 		declPhis()
 	}
+	// locally owned cells assigned inside the loop are loop targets too
+	for a := range head.locals {
+		if e.loopStoresLocal(li, a) {
+			et := a.Type().Underlying().(*types.Pointer).Elem()
+			n := e.declare("lploc_"+a.Comment, e.sortOf(et))
+			head.locals[a] = n
+			e.assumeWF(head, n, et)
+		}
+	}
 	if writesAll {
 		e.havocAll(head)
 		declPhis()
@@ -932,6 +998,14 @@ func (e *fnEnc) enterLoop(li *loopInfo, entry *state) *state {
 				e.emit(fmt.Sprintf("(assert (forall ((a Ref)) (! (=> (and (< (rootn a) %s) %s) (= (select %s a) (select %s a))) :pattern ((select %s a)))))", e.entry.next, outside, nh, e.heap(e.entry, k, cell), nh))
 			}
 			_ = old
+		}
+	}
+	if !writesAll && len(keys) > 0 {
+		// object invariants over immutable fields and ground facts about package-level
+		// variables survive the loop (as they survive any havoc)
+		e.assumeGlobalFacts(head)
+		for _, tv := range e.invTracked {
+			e.assumeTypeInv(head, tv.term, tv.typ, false)
 		}
 	}
 	// 3. assume invariants
@@ -1012,6 +1086,15 @@ func (e *fnEnc) closeLoop(li *loopInfo, from *ssa.BasicBlock, st *state) {
 		t := env.evalBool(inv.Expr)
 		o := e.oblige(est, "inv-keep", fmt.Sprintf("loop%d[%s]", li.ordinal, labelOr(inv.Label, i)), token.NoPos, t)
 		o.Quantified = true
+	}
+	if len(spec.IterEnsures) > 0 {
+		ienv := e.contractEnv(est, e.entry, nil) // no loop: names are the iteration's own values
+		ienv.iterFrom = from
+		for i, ie := range spec.IterEnsures {
+			t := ienv.evalBool(ie.Expr)
+			o := e.oblige(est, "iteration-ensures", fmt.Sprintf("loop%d[%s]", li.ordinal, labelOr(ie.Label, i)), token.NoPos, t)
+			o.Src = ie.Src
+		}
 	}
 	if spec.Decreases != nil {
 		v := env.coerceInt(env.eval(spec.Decreases.Expr))
@@ -1140,6 +1223,11 @@ func (e *fnEnc) execBlock(b *ssa.BasicBlock, st *state) {
 // val returns the SMT term of an SSA value.
 func (e *fnEnc) val(v ssa.Value) string {
 	if t, ok := e.vals[v]; ok {
+		if t == "LOCAL-CELL" {
+			// only reached for closure bindings: the literal's contract reads the value through
+			// cellValue; the address itself is a fresh placeholder object
+			return "(obj (- 999999))"
+		}
 		if t == "WINDOW-POINTER-ESCAPED" {
 			e.unsupported("a pointer obtained by a slice-to-array conversion is stored or passed on (%s)", v.Name())
 		}
@@ -1209,6 +1297,9 @@ func (e *fnEnc) modifiedTypes(c *ssa.CallCommon) (ts []types.Type, ok bool) {
 	en := e.calleeEnv(scratch, scratch, c, e.staticCallee(c), args)
 	for _, m := range fc.Modifies {
 		for _, ma := range en.modAddrs(m) {
+			if ma.ghostFlag != "" {
+				continue
+			}
 			if ma.mapObj != "" {
 				return nil, false
 			}
@@ -1343,6 +1434,17 @@ func defaultNonNil(t types.Type) bool {
 	switch t.Underlying().(type) {
 	case *types.Pointer, *types.Map:
 		return true
+	}
+	return false
+}
+
+func (e *fnEnc) loopStoresLocal(li *loopInfo, a *ssa.Alloc) bool {
+	for b := range li.blocks {
+		for _, ins := range b.Instrs {
+			if st, ok := ins.(*ssa.Store); ok && st.Addr == ssa.Value(a) {
+				return true
+			}
+		}
 	}
 	return false
 }
